@@ -33,6 +33,7 @@ ME_PORT = 61000
 FILESIZE = 4000
 
 NEG_PREFIX = ('queue-remotely-', 'initialize-')
+HARNESS_PREFIX = ('user-', 'peer-link-', 'sim-accept-')     # tasks of the harness itself
 
 
 # ---------------------------------------------------------------------------
@@ -107,6 +108,8 @@ class World:
         self.links: list[PeerLink] = []
         self.peer_p = None                # PeerLink the peer uses to send its own messages
         self.offers: dict[int, int] = {}  # ticket of a PeerTransferRequest sent by the peer -> t
+        self.accepted_offers: set = set()  # tickets the client answered with allowed=True
+        self.used_tickets: set = set()
         self.requests: dict[int, dict] = {}  # t -> last PeerTransferRequest received from the client (uploads)
         self.keep = []                    # strong refs
         self.status_flip = 0
@@ -114,6 +117,8 @@ class World:
         self.hold_files = False
         self.harness_errors: list[str] = []
         self.peer_ticket = 700
+        self.main_task = None
+        self.telling: list = []           # fields the peer has told and the client has not taken over yet
 
     # -- set-up ------------------------------------------------------------
     async def setup(self):
@@ -124,6 +129,7 @@ class World:
         from aioslsk.user.model import UserStatus
         self.M = M
         loop = self.loop
+        self.main_task = asyncio.current_task()
         self.net = simnet.SimNet(loop).install()
         self.srv = simserver.ScriptedServer(self.net)
         self.status = {PEER: UserStatus.OFFLINE.value}
@@ -150,7 +156,8 @@ class World:
                 fh.write(bytes([65 + i]) * FILESIZE)
         settings = simserver.make_settings('me', port=ME_PORT, obfuscated_port=ME_PORT + 1,
                                            download_dir=self.dl_dir,
-                                           shared=[dict(path=self.sh_dir, share_mode='everyone')])
+                                           shared=[dict(path=self.sh_dir, share_mode='everyone')],
+                                           transfers=dict(report_interval=30.0))   # (fewer idle wake-ups)
         self.client = simserver.make_client(settings)
         await self.client.start()
         await self.client.login()
@@ -231,21 +238,23 @@ class World:
         self.net.uninstall()
 
     # -- observation ---------------------------------------------------------
-    def _neg_tasks(self):
+    def _lib_tasks(self):
+        """Every task of the code under test (the harness' own tasks left out)."""
         out = []
         for tk in asyncio.all_tasks(self.loop):
-            nm = tk.get_name()
-            if nm.startswith(NEG_PREFIX):
-                out.append(tk)
+            if tk is self.main_task or tk.get_name().startswith(HARNESS_PREFIX):
+                continue
+            out.append(tk)
         return out
 
     @staticmethod
     def _name_key(tk):
         m = re.search(r'(\d+)$', tk.get_name())
-        return int(m.group(1)) if m else 0
+        return (int(m.group(1)) if m else 0, tk.get_name())
 
     def _owner(self, tk):
-        """Transfer a negotiation task works for: the Transfer object found among the locals of its coroutine."""
+        """Transfer a task works for: the Transfer object - or the remote path of one - found among the locals of
+        its coroutine.  A task is recognised by what it holds, not by its name."""
         if tk in self.task_owner:
             return self.task_owner[tk]
         t = 0
@@ -254,26 +263,39 @@ class World:
             if fr is not None:
                 for v in fr.f_locals.values():
                     for i, tr in enumerate(self.transfers):
-                        if v is tr:
+                        if v is tr or (isinstance(v, str) and v == self.names[i]):
                             t = i + 1
         except Exception:
             t = 0
-        if t == 0 and self.n == 1 and self.transfers:
+        named = tk.get_name().startswith(NEG_PREFIX)
+        if t == 0 and named and self.n == 1 and self.transfers:
             t = 1
         if t:
             self.task_owner[tk] = t
         return t
 
     def _scan_tasks(self):
-        new = [tk for tk in self._neg_tasks() if tk not in self.task_ids]
+        if len(self.transfers) < self.n:
+            return
+        new = [tk for tk in self._lib_tasks() if tk not in self.task_ids and not tk.done()
+               and (self._owner(tk) or tk.get_name().startswith(NEG_PREFIX))]
         for tk in sorted(new, key=self._name_key):
             self.task_ids[tk] = len(self.task_ids) + 1
             self.keep.append(tk)
-            if self._owner(tk) == 0 and len(self.transfers) == self.n:
+            if self._owner(tk) == 0:
                 self.harness_errors.append(f'cannot attribute task {tk.get_name()}')
 
     def _kind(self, tk):
-        return 'rq' if tk.get_name().startswith('queue-remotely-') else 'init'
+        nm = tk.get_name()
+        if nm.startswith('queue-remotely-'):
+            return 'rq'
+        if nm.startswith('initialize-'):
+            return 'init'
+        # some other task holding the transfer: fine if the transfer's slots reach it, else "oth"
+        t = self.task_owner.get(tk, 0)
+        if t and any(x is tk for x in self.transfers[t - 1].get_tasks()):
+            return 'init'
+        return 'oth'
 
     def live(self, t, kind):
         self._scan_tasks()
@@ -294,7 +316,7 @@ class World:
         def s(v):
             return 'none' if v is None else str(v)
         lp = tr.local_path
-        return dict(st=tr.state.VALUE.name, rq=bool(tr.remotely_queued), qa=int(tr.queue_attempts),
+        return dict(st=tr.state.VALUE.name, remQ=bool(tr.remotely_queued), qa=int(tr.queue_attempts),
                     piq=s(tr.place_in_queue), fr=s(tr.fail_reason), ar=s(tr.abort_reason),
                     lp='none' if lp is None else os.path.basename(lp), bt=int(tr.bytes_transfered))
 
@@ -313,14 +335,22 @@ class World:
                 else:
                     tt = self.task_ids[tk]
             out.append(dict(present=any(x is tr for x in self.tm.transfers), rq=rq, tt=tt,
-                            lrq=self.live(t, 'rq'), ltt=self.live(t, 'init'), f=self.fields(tr)))
+                            lrq=self.live(t, 'rq'), ltt=self.live(t, 'init'), loth=self.live(t, 'oth'),
+                            f=self.fields(tr)))
         while len(out) < NT:
-            out.append(dict(present=False, rq=0, tt=0, lrq=[], ltt=[],
-                            f=dict(st='NONE', rq=False, qa=0, piq='none', fr='none', ar='none', lp='none', bt=0)))
+            out.append(dict(present=False, rq=0, tt=0, lrq=[], ltt=[], loth=[],
+                            f=dict(st='NONE', remQ=False, qa=0, piq='none', fr='none', ar='none', lp='none', bt=0)))
         return out
 
     def _record(self, ev, t=0, o='none', val='none', what='none', ts=(), amb=False):
-        rec = dict(ev=ev, t=t, o=o, val=val, what=what, ts=list(ts), amb=bool(amb),
+        # a frame in which the peer tells a field stays "being told" until the client has taken it over: the
+        # reader loop of that connection may be held up behind an earlier frame (a handler waiting for a state lock)
+        told = [[e['t'], e['f']] for e in self.telling]
+        for e in list(self.telling):
+            cur = self.fields(self.transfers[e['t'] - 1])[e['f']]
+            if cur != e['old'] or e.get('closed_noop'):
+                self.telling.remove(e)
+        rec = dict(ev=ev, t=t, o=o, val=val, what=what, ts=list(ts), amb=bool(amb), told=told,
                    s=self.snapshot(), nT=len(self.task_ids), vt=int(round((self.loop.time() - 1000.0) * 1000)))
         self.events.append(rec)
         return rec
@@ -331,7 +361,7 @@ class World:
             tk = asyncio.current_task(self.loop)
         except RuntimeError:
             tk = None
-        if tk is None or not tk.get_name().startswith(NEG_PREFIX):
+        if tk is None or tk is self.main_task or tk.get_name().startswith(HARNESS_PREFIX):
             return 0, tk
         self._scan_tasks()
         return self._owner(tk), tk
@@ -392,6 +422,7 @@ class World:
         elif isinstance(msg, M.PeerTransferReply.Request):
             t = self.offers.get(msg.ticket, 0)
             if msg.allowed:
+                self.accepted_offers.add(msg.ticket)
                 self._record('msg', t=t, what='PeerTransferReply')
             # a refusal answers the peer's own request; it is not a message on the transfer's behalf
 
@@ -523,9 +554,7 @@ class World:
 
     async def peer_offer(self, t):
         M = self.M
-        # environment assumption (see TransferTasks.PeerOffer): the peer does not offer again while its previous
-        # offer is being processed
-        if self.transfers[t - 1].is_upload() or self.live(t, 'init'):
+        if self.transfers[t - 1].is_upload():
             self._record('stim', o='offer-skipped', t=t)
             return
         link = await self._peer_p_link()
@@ -535,15 +564,74 @@ class World:
         await self.pause_a_bit()
         self._record('stim', o='offer', t=t)
 
+    async def peer_queue_failed(self, t):
+        """The peer refuses to queue download t (PeerTransferQueueFailed)."""
+        tr = self.transfers[t - 1]
+        tk = getattr(self, 'pending_call', None)
+        pausing = tk is not None and not tk.done() and getattr(self, 'pending_t', 0) == t and 'pause' in tk.get_name()
+        if tr.is_upload() or tr.state.VALUE.name == 'PAUSED' or pausing or not any(x is tr for x in self.tm.transfers):
+            self._record('stim', o='queue-failed-skipped', t=t)
+            return
+        link = await self._peer_p_link()
+        link.ep.send_message(self.M.PeerTransferQueueFailed.Request(self.names[t - 1], 'Banned'))
+        await self.pause_a_bit()
+        self._record('stim', o='queue-failed', t=t)
+
+    async def peer_queue(self, t):
+        """The peer asks again for upload t (PeerTransferQueue for a transfer we already have)."""
+        tr = self.transfers[t - 1]
+        if not tr.is_upload() or not any(x is tr for x in self.tm.transfers):
+            self._record('stim', o='peer-queue-skipped', t=t)
+            return
+        link = await self._peer_p_link()
+        link.ep.send_message(self.M.PeerTransferQueue.Request(self.names[t - 1]))
+        await self.pause_a_bit()
+        self._record('stim', o='peer-queue', t=t)
+
+    async def peer_tells(self, t, f):
+        """The peer tells where download t stands in its queue: PeerUploadFailed (no longer queued there) or
+        PeerPlaceInQueueReply."""
+        tr = self.transfers[t - 1]
+        if tr.is_upload() or not any(x is tr for x in self.tm.transfers):
+            self._record('stim', o='peer-tells-skipped', t=t)
+            return
+        link = await self._peer_p_link()
+        entry = dict(t=t, f=f, old=self.fields(tr)[f])
+        self.telling.append(entry)
+        self._record('stim', o='peer-tells-begin', t=t, what=f)
+        if f == 'remQ':
+            link.ep.send_message(self.M.PeerUploadFailed.Request(self.names[t - 1]))
+        else:
+            self.place = getattr(self, 'place', 3) + 1
+            link.ep.send_message(self.M.PeerPlaceInQueueReply.Request(self.names[t - 1], self.place))
+        await self.pause_a_bit()
+        if f == 'remQ' and entry['old'] is False:
+            entry['closed_noop'] = True        # nothing to take over: the field already says "not queued there"
+        self._record('stim', o='peer-tells-end', t=t, what=f)
+
+    async def pconn_lost(self):
+        """The peer closes every peer (P) connection it has with the client."""
+        n = 0
+        for lk in self.links:
+            if lk.typ == 'P' and not lk.closed and not getattr(lk, 'shut', False):
+                lk.shut = True
+                lk.ep.close()
+                n += 1
+        self.peer_p = None
+        await self.pause_a_bit()
+        self._record('stim', o='pconn-lost' if n else 'pconn-lost-skipped')
+
     async def file_conn(self, t, i, res):
         """The peer opens the file connection for its latest offer of t."""
         if res != 'ok':
             self._record('stim', o='fileconn-timeout-skipped', t=t)
             return
         ticket = None
-        for tk_, tt in self.offers.items():
-            if tt == t:
-                ticket = tk_
+        tickets = [tk_ for tk_, tt in sorted(self.offers.items()) if tt == t and tk_ in self.accepted_offers
+                   and tk_ not in self.used_tickets]
+        if tickets:
+            ticket = tickets[min(i, len(tickets)) - 1]
+            self.used_tickets.add(ticket)
         if ticket is None or self.nth_task(t, 'init', i) is None:
             self._record('stim', o='fileconn-skipped', t=t)
             return
@@ -572,11 +660,24 @@ class World:
             if link is None or self.nth_task(t, 'init', i) is None:
                 self._record('stim', o=f'xfer-{res}-skipped', t=t)
                 return
-            # the downloader closes: after everything arrived (done / break), or the connection is reset
-            if res == 'reset':
-                link.ep.link.cut('reset')
-            else:
+            cw = self._client_writer(link)
+            if res == 'done':
+                # the data goes through, then the downloader closes
+                cw.resume()
+                await vloop.settle(self.loop)
                 link.ep.close()
+            else:
+                # the downloader goes away mid-transfer: the client's pending write fails
+                exc = ConnectionResetError(104, 'Connection reset by peer')
+                cw.fail_writes = exc
+                waiter = getattr(cw, '_resume', None)
+                cw.paused = False
+                if waiter is not None and not waiter.done():
+                    waiter.set_exception(exc)
+                if res == 'reset':
+                    link.ep.link.cut('reset')
+                else:
+                    link.ep.close()
         else:
             link = getattr(self, 'dl_links', {}).get(t)
             if link is None or self.nth_task(t, 'init', i) is None or not hasattr(link, 'offset'):
@@ -617,11 +718,17 @@ class World:
         self.ul_links = getattr(self, 'ul_links', {})
         self.ul_links[t] = link
         if res == 'ok':
+            # back-pressure on the client's side: the upload stays in progress until the schedule ends it
+            self._client_writer(link).paused = True
             link.ep.send(struct.pack('<Q', 0))
         else:
             link.ep.close()
         await self.pause_a_bit()
         self._record('stim', o=f'offset-{res}', t=t)
+
+    @staticmethod
+    def _client_writer(link):
+        return link.ep.link.writers[1 - link.ep.writer.side]
 
     async def call(self, t, o, cyc=None, hold=False):
         """The user calls abort / pause / remove.  cyc = None | 0 | 1 | 2: a management cycle is requested so that
@@ -802,6 +909,17 @@ def stimuli_of(labels):
                         'fdirect' if name == 'FDirect' else 'findirect'])
         elif name == 'PeerOffer':
             out.append(['peer_offer', a[0]])
+        elif name == 'PeerQueueFailed':
+            out.append(['peer_queue_failed', a[0]])
+        elif name == 'PeerQueue':
+            out.append(['peer_queue', a[0]])
+        elif name == 'PeerTells':
+            out.append(['peer_tells', a[0], a[1]])
+        elif name == 'PConnLost':
+            out.append(['pconn_lost'])
+        elif name == 'Notify':
+            t, i, stage, res = a
+            out.append(['direct' if stage == 'ndirect' else 'indirect_', t, 'init', i, res, stage])
         elif name == 'FileConn':
             out.append(['file_conn', a[0], a[1], a[2]])
         elif name == 'Reply':
@@ -898,6 +1016,27 @@ PINNED = [
      'ok'),
     (('uq',), (('cycle',), ('direct', 1, 'init', 1, 'ok'), ('reply', 1, 1, 'allow'), ('direct', 1, 'init', 1, 'ok', 'fdirect'),
                ('offset', 1, 1, 'ok'), ('call', 1, 'abort', None, False)), 'timeout'),
+    # peer frames landing inside a parked call / after its return
+    (('di',), (('call', 1, 'abort', None, True), ('peer_queue_failed', 1), ('release', 1)), 'timeout'),
+    (('di',), (('cycle',), ('call', 1, 'remove', None, True), ('peer_queue_failed', 1), ('peer_tells', 1, 'piq'),
+               ('release', 1), ('peer_queue_failed', 1)), 'ok'),
+    (('dq',), (('cycle',), ('direct', 1, 'rq', 1, 'ok'), ('call', 1, 'abort', None, False), ('peer_tells', 1, 'remQ'),
+               ('peer_tells', 1, 'piq'), ('peer_queue_failed', 1)), 'timeout'),
+    # the uploader repeats its offer with a new ticket while the first is being processed
+    (('dq',), (('cycle',), ('peer_offer', 1), ('peer_offer', 1), ('call', 1, 'abort', None, False)), 'timeout'),
+    (('dq',), (('cycle',), ('peer_offer', 1), ('peer_offer', 1), ('call', 1, 'pause', None, False),
+               ('file_conn', 1, 1, 'ok')), 'ok'),
+    (('dq',), (('cycle',), ('peer_offer', 1), ('direct', 1, 'rq', 1, 'fail'), ('indirect_', 1, 'rq', 1, 'fail'), ('cycle',),
+               ('peer_offer', 1), ('call', 1, 'abort', None, False)), 'timeout'),
+    # an upload breaks mid-transfer while the peer is hard to reach for the PeerUploadFailed notification
+    (('uq',), (('cycle',), ('direct', 1, 'init', 1, 'ok'), ('reply', 1, 1, 'allow'), ('direct', 1, 'init', 1, 'ok', 'fdirect'),
+               ('offset', 1, 1, 'ok'), ('pconn_lost',), ('xfer', 1, 1, 'break'), ('call', 1, 'remove', None, False)), 'ok'),
+    (('uq',), (('cycle',), ('direct', 1, 'init', 1, 'ok'), ('reply', 1, 1, 'allow'), ('direct', 1, 'init', 1, 'ok', 'fdirect'),
+               ('offset', 1, 1, 'ok'), ('pconn_lost',), ('xfer', 1, 1, 'reset'), ('peer_queue', 1), ('cycle',),
+               ('call', 1, 'abort', None, False)), 'ok'),
+    (('uq',), (('cycle',), ('direct', 1, 'init', 1, 'ok'), ('reply', 1, 1, 'allow'), ('direct', 1, 'init', 1, 'ok', 'fdirect'),
+               ('offset', 1, 1, 'ok'), ('pconn_lost',), ('xfer', 1, 1, 'break'),
+               ('direct', 1, 'init', 1, 'fail', 'ndirect'), ('call', 1, 'remove', None, False)), 'timeout'),
     (('dq', 'dq', 'uq'), (('cycle',), ('direct', 1, 'rq', 1, 'ok'), ('cycle',), ('call', 2, 'remove', None, False),
                           ('call', 3, 'pause', None, False), ('requeue', 3)), 'timeout'),
 ]
@@ -990,10 +1129,20 @@ def fingerprint(tid, info, trace):
             return f"C06:unexplained:{ev.get('ev')}:{ev.get('o')}:{str(ev.get('val'))[:40]}"
         return 'C06:rejected-trace'
     s = ev.get('s') or []
+    kinds0 = trace[0].get('kinds') or []
     if name == 'AtMostOneNegotiation':
+        for i, x in enumerate(s):
+            if len(x['ltt']) > 1 and i < len(kinds0) and kinds0[i] != 'uq':
+                # state of the transfer when the repeated offer was accepted (record before the failing one)
+                idx = (at or 1) - 1
+                prev = trace[idx - 1]['s'][i]['f']['st'] if 0 < idx < len(trace) else '?'
+                return ('C06:peer-transfer-request:second-initialize-download-started-while-one-is-in-flight:'
+                        f'state-{prev}')
         kind = 'queue-remotely' if any(len(x['lrq']) > 1 for x in s) else 'initialize'
         return f'C06:manage_transfers:second-{kind}-task-started-while-one-is-in-flight'
     if name == 'SlotsTrackLive':
+        if any(x.get('loth') for x in s):
+            return 'C06:detached-task:works-for-the-transfer-outside-its-slots'
         for x in s:
             for live, slot in ((x['lrq'], x['rq']), (x['ltt'], x['tt'])):
                 if any(k != slot for k in live):
@@ -1012,7 +1161,7 @@ def fingerprint(tid, info, trace):
                 if trace[j]['ev'] == 'call' and trace[j]['t'] == t:
                     n_before = trace[j]['nT']
                     break
-            live = s[t - 1]['lrq'] + s[t - 1]['ltt'] if 0 < t <= len(s) else []
+            live = s[t - 1]['lrq'] + s[t - 1]['ltt'] + s[t - 1].get('loth', []) if 0 < t <= len(s) else []
             if o == 'remove' and st != 'ABORTED':
                 return f'C06:remove:task-survives-remove-in-state-{st}'
             if n_before is not None and any(k > n_before for k in live):
@@ -1077,8 +1226,9 @@ def collect_schedules(chk: Check, thorough: bool):
     return scheds
 
 
-EXPECT_ACTIONS = ['Cycle', 'DoneCallback', 'CancelDelivered', 'Direct', 'Indirect', 'PeerOffer', 'FileConn', 'Reply',
-                  'FDirect', 'FIndirect', 'Offset', 'Xfer', 'Call', 'OpCancelled', 'FileGone', 'Requeue']
+EXPECT_ACTIONS = ['Cycle', 'DoneCallback', 'CancelDelivered', 'Direct', 'Indirect', 'PeerOffer', 'PeerQueueFailed',
+                  'PeerQueue', 'PeerTells', 'PConnLost', 'FileConn', 'Reply', 'FDirect', 'FIndirect', 'Offset', 'Xfer',
+                  'Call', 'OpCancelled', 'FileGone', 'Requeue']
 
 SWITCH_EXPECT = {
     'SkipOccupied': 'AtMostOneNegotiation',
@@ -1086,6 +1236,7 @@ SWITCH_EXPECT = {
     'RemoveCancels': 'QuietNoTasks',
     'CycleSkipsLocked': 'QuietNoTasks',
     'OfferSkipsLocked': 'QuietNoTasks',
+    'OfferSkipsOccupied': 'AtMostOneNegotiation',
 }
 
 
@@ -1137,13 +1288,17 @@ def run(chk: Check, args):
     # ---- design model ------------------------------------------------------------------------------
     r = tlc.model_check(SPEC, 'MC_quick.cfg', expect_actions=EXPECT_ACTIONS, timeout=1500)
     chk.add_model('TransferTasks 1 transfer (exhaustive)', r)
+    chk.add_model('TransferTasks 1 download, repeated offers (exhaustive)',
+                  tlc.model_check(SPEC, 'MC_reoffer.cfg', expect_actions=['PeerOffer', 'FileConn'], timeout=1500))
+    chk.add_model('TransferTasks 1 upload to the end incl. failure notification (exhaustive)',
+                  tlc.model_check(SPEC, 'MC_up.cfg', expect_actions=['Notify', 'Xfer', 'PConnLost', 'PeerQueue'], timeout=1500))
     for sw, prop in SWITCH_EXPECT.items():
         rs = tlc.run_tlc(SPEC, f'MC_no_{sw}.cfg', workers=2, timeout=900)
         hit = any(i.name == prop for i in rs.issues)
         chk.cov['binding_selftest'][f'model_with_{sw}_FALSE_violates_{prop}'] = hit
         if not hit:
             raise MachineryFailure(f'design model with {sw}=FALSE did not violate {prop}')
-    chk.log('design model in the code\'s switch positions violates the expected properties (5 configs)')
+    chk.log('design model in the code\'s switch positions violates the expected properties (6 configs)')
     if thorough:
         r2 = tlc.model_check(SPEC, 'MC_t2.cfg', timeout=3000)
         chk.add_model('TransferTasks 2 transfers (exhaustive)', r2)
@@ -1151,7 +1306,7 @@ def run(chk: Check, args):
     # ---- schedules ---------------------------------------------------------------------------------
     scheds = collect_schedules(chk, thorough)
     keys = sorted(scheds, key=repr)
-    cap = 2200 if thorough else 300
+    cap = 1500 if thorough else 280
     pinned = [k for k in keys if scheds[k] == 'pinned']
     rest = [k for k in keys if scheds[k] != 'pinned']
     if len(rest) > cap - len(pinned):
@@ -1229,7 +1384,7 @@ def run(chk: Check, args):
             bad.insert(j, dict(bad[j], ev='msg', t=t, what='PeerTransferQueue'))
         elif kind == 2:     # a field changes after the return
             for e in bad[j:]:
-                e['s'][t - 1]['f']['rq'] = not e['s'][t - 1]['f']['rq']
+                e['s'][t - 1]['f']['remQ'] = not e['s'][t - 1]['f']['remQ']
         else:               # a connection is opened on its behalf
             bad.insert(j, dict(bad[j], ev='conn', ts=[t], amb=False, what='connect'))
         corrupted.append(bad)
@@ -1259,7 +1414,11 @@ def run(chk: Check, args):
         'after the task ended, in registration order; Queue.put_nowait wakes the getter through the ready queue',
         'negotiation tasks are found by their names queue-remotely-*/initialize-* and attributed to a transfer '
         'through the Transfer object held by their coroutine; slots are read with Transfer.get_tasks()',
-        'the peer is sane: it does not offer a file again while its previous offer is being processed',
+        'PeerTransferQueueFailed is not sent for a PAUSED download (PAUSED -> FAILED is a documented edge the peer may '
+        'take); remotely_queued / place_in_queue mirror the peer\'s queue: a change of exactly that field in the span '
+        'in which the peer tells it (PeerUploadFailed / PeerPlaceInQueueReply) is not a change made by the client',
+        'any task (whatever its name) whose coroutine holds the Transfer object or its remote path counts as working '
+        'for the transfer; it must be reachable through Transfer.get_tasks()',
         'peer status changes used as cycle triggers are ONLINE/AWAY (an OFFLINE status resets remotely_queued of '
         'every download of that user, also of aborted ones; judged benign and left out)',
         'one peer, fallback connect mode, GetPeerAddress answered at once; timeouts (10 s connect, 60 s indirect / '
